@@ -4737,6 +4737,13 @@ void SoPlexBase<R>::_untransformFeasibility(SolRational& sol, bool infeasible)
 
       sol._dualFarkas = sol._dual;
 
+      // drop the entry of the auxiliary column: the stored vectors have to fit the user's dimensions
+      if(sol._primal.dim() > numOrigCols)
+         sol._primal.reDim(numOrigCols);
+
+      if(sol._redCost.dim() > numOrigCols)
+         sol._redCost.reDim(numOrigCols);
+
       _hasBasis = false;
       _basisStatusCols.reSize(numOrigCols);
    }
